@@ -7,8 +7,8 @@
 // options           : list separator, clear-before-assign, sort, unique (drop / error), multi-value, element check,
 //                     uppercase format for every value / for the value at position 1 only (string vectors),
 //                     range(0,5), initial content {}, {4}, {4,2}; options a destination does not support are skipped
-// value sequences   : ALL sequences of <= 3 (quick) / <= 4 (thorough) elements over {0,1,2,7} incl. duplicates and the
-//                     out-of-range 7; EVERY CUT of the sequence into uses (-v 1,2 -v 3 / -v 1 2 3 with multi-value / ...)
+// value sequences   : ALL sequences of <= 3 (quick) / <= 4 (thorough) elements over {0,1,2,7,14} incl. duplicates, the
+//                     out-of-range 7 and 14 (same hash bucket as 1); EVERY CUT of the sequence into uses (-v 1,2 -v 3 / -v 1 2 3 with multi-value / ...)
 // oracle            : reference fold: initial content, cleared once if requested, then every element in order with the
 //                     container's own placement rule, duplicates dropped or refused, checks per element, sorted if
 //                     requested; fixed-size kinds refuse element N+1; bit sets set the given positions. All cuts must give
@@ -184,7 +184,7 @@ int main(int argc, char** argv) {
    vf::init(argc, argv);
    if (vf::replaying()) { vf::ctx().only = strtoll(vf::replay_case().c_str(), nullptr, 10); vf::ctx().have_replay = false; }
    const int maxlen = vf::deep() ? 5 : vf::thorough() ? 4 : 3;
-   const std::vector<std::string> ia{"0", "1", "2", "7"}; const std::vector<int> i1{4}, i2{4, 2};
+   const std::vector<std::string> ia{"0", "1", "2", "7", "14"}; const std::vector<int> i1{4}, i2{4, 2};      // 14 shares a hash bucket with 1 (13 buckets) and is out of range like 7
    run_kind<std::vector<int>, int>("vector<int>", BACK, true, false, ia, i1, i2, maxlen, false);
    run_kind<std::deque<int>, int>("deque<int>", BACK, true, false, ia, i1, i2, maxlen, false);
    run_kind<std::list<int>, int>("list<int>", BACK, true, false, ia, i1, i2, maxlen, false);
